@@ -2,6 +2,7 @@ package guards
 
 import (
 	"go/types"
+	"sort"
 
 	"golang.org/x/tools/go/ssa"
 )
@@ -55,9 +56,17 @@ func (e *Engine) AnalyzeCtx(f *ssa.Function) *FuncAn {
 		if isInt {
 			cands = []cand{{i, false, 1, false}, {i, false, 0, false}}
 		} else {
-			// equal constant length at every site?
-			if c, ok := e.commonConstLen(sites, f, i); ok {
+			// equal constant length at every site? Candidates are the constant lengths seen at any site (a site
+			// whose argument length is not syntactically constant must entail the candidate from its facts);
+			// then the same constants as lower bounds, largest first.
+			cs := e.siteConstLens(sites, f, i)
+			for _, c := range cs {
 				cands = append(cands, cand{i, true, c, true})
+			}
+			for _, c := range cs {
+				if c > 1 {
+					cands = append(cands, cand{i, true, c, false})
+				}
 			}
 			cands = append(cands, cand{i, true, 1, false})
 		}
@@ -75,6 +84,43 @@ func (e *Engine) AnalyzeCtx(f *ssa.Function) *FuncAn {
 				}
 				notes = append(notes, pl.plus(-cd.c).String()+" >= 0")
 				break
+			}
+		}
+	}
+	// relational candidates between two sequence parameters: len(p_i) >= len(p_j) at every site
+	// (helpers of the form `for i := range dst { dst[i] ^= src[i] }`)
+	for i, pi := range f.Params {
+		if !isSeq(pi.Type()) {
+			continue
+		}
+		for j, pj := range f.Params {
+			if i == j || !isSeq(pj.Type()) {
+				continue
+			}
+			ok := true
+			for _, st := range sites {
+				ai, aj := siteArg(st, f, i), siteArg(st, f, j)
+				if ai == nil || aj == nil {
+					ok = false
+					break
+				}
+				ca := e.AnalyzeCtx(st.Parent())
+				if ca == nil || !ca.Converged {
+					ok = false
+					break
+				}
+				if ca.in[st.Block()] == nil {
+					continue
+				}
+				if !ca.Entails(st.Block(), Add(ca.LenOf(ai), ca.LenOf(aj), -1)) {
+					ok = false
+					break
+				}
+			}
+			if ok {
+				rel := Add(a.LenOf(pi), a.LenOf(pj), -1)
+				entry.AddFact(rel)
+				notes = append(notes, rel.String()+" >= 0")
 			}
 		}
 	}
@@ -136,27 +182,26 @@ func (e *Engine) allSitesEntail(sites []ssa.CallInstruction, f *ssa.Function, pa
 	return true
 }
 
-func (e *Engine) commonConstLen(sites []ssa.CallInstruction, f *ssa.Function, param int) (int64, bool) {
-	var c int64
-	for i, s := range sites {
+// siteConstLens lists the distinct constant argument lengths seen at the call sites, largest first.
+func (e *Engine) siteConstLens(sites []ssa.CallInstruction, f *ssa.Function, param int) []int64 {
+	seen := map[int64]bool{}
+	var out []int64
+	for _, s := range sites {
 		arg := siteArg(s, f, param)
 		if arg == nil {
-			return 0, false
+			return nil
 		}
 		ca := e.AnalyzeCtx(s.Parent())
 		if ca == nil {
-			return 0, false
+			return nil
 		}
-		l := ca.LenOf(arg)
-		if !l.IsConst() {
-			return 0, false
+		if l := ca.LenOf(arg); l.IsConst() && !seen[l.C] {
+			seen[l.C] = true
+			out = append(out, l.C)
 		}
-		if i > 0 && l.C != c {
-			return 0, false
-		}
-		c = l.C
 	}
-	return c, len(sites) > 0
+	sort.Slice(out, func(i, j int) bool { return out[i] > out[j] })
+	return out
 }
 
 var _ = types.Identical
